@@ -196,39 +196,63 @@ def specShortestPoints (G : M3 Rat) (d : V3 Rat) : List (V3 Int) :=
 def specShortest (G : M3 Rat) (d : V3 Rat) : List (V3 Rat) :=
   (specShortestPoints G d).map (fun n => d + n.toRat)
 
-/-! ### a per-lattice certificate of window completeness (all separations in `[-1/2,1/2]³` at once)
+/-! ### a per-lattice certificate of window completeness (all separations at once)
 
-`Q(d+n) − Q(d+n−e) = 2·eᵀG(d+n) − Q(e)` is linear in `d`; over the cube it is at least
-`stepGain G n e = 2·eᵀGn − Q(e) − ‖Ge‖₁`.  If for every lattice point `n` of the finite box that is
-not a search point some neighbour step `e` has positive gain, no such `n` can be a minimum image for
-any reduced separation, and points outside the box are too long (`Props/C05.lean`). -/
+Both positions of a pair are reduced into `[-1/2,1/2]³` (`x − rint(x)`), so the separation `d` handed
+to the kernels lies in `[-1,1]³`.  `Q(d+n) − Q(d+n−e) = 2·eᵀG(d+n) − Q(e)` is linear in `d`; over a box
+`lo ≤ d ≤ hi` it is at least `stepGainBox G n e lo hi`.  If for every lattice point `n` of a finite box
+that is not a search point, every `d` of the cube lies in a sub-box (found by bisection up to `depth`)
+on which some neighbour step `e` has positive gain, no such `n` is a minimum image for any
+separation; points outside the finite box are too long (`Props/C05.lean`). -/
 
 def absR (q : Rat) : Rat := if q < 0 then -q else q
+def minR (a b : Rat) : Rat := if a ≤ b then a else b
 
-/-- an upper bound of `len2 G d` over the cube `|d_i| ≤ 1/2` -/
+/-- an upper bound of `len2 G d` over the cube `|d_i| ≤ 1` -/
 def cubeRho2 (G : M3 Rat) : Rat :=
-  (absR G.a00 + absR G.a01 + absR G.a02 + absR G.a10 + absR G.a11 + absR G.a12 + absR G.a20 + absR G.a21 + absR G.a22) / 4
+  absR G.a00 + absR G.a01 + absR G.a02 + absR G.a10 + absR G.a11 + absR G.a12 + absR G.a20 + absR G.a21 + absR G.a22
 
 def symRange (R : Nat) : List Int := (List.range (2 * R + 1)).map fun (k : Nat) => (k : Int) - (R : Int)
 
-/-- all lattice translations that can give an image no longer than some `d` in the cube -/
+/-- all lattice translations that can give an image no longer than some `d` in the cube `[-1,1]³` -/
 def cubeBox (G : M3 Rat) : List (V3 Int) :=
   let rho2 := cubeRho2 G
   let A := G.adj
-  (symRange (radius G rho2 A.a00)).flatMap fun nx =>
-    (symRange (radius G rho2 A.a11)).flatMap fun ny =>
-      (symRange (radius G rho2 A.a22)).map fun nz => (⟨nx, ny, nz⟩ : V3 Int)
+  (symRange (radius G rho2 A.a00 + 1)).flatMap fun nx =>
+    (symRange (radius G rho2 A.a11 + 1)).flatMap fun ny =>
+      (symRange (radius G rho2 A.a22 + 1)).map fun nz => (⟨nx, ny, nz⟩ : V3 Int)
 
 def neighbours26 : List (V3 Int) :=
   (lattice1D.flatMap fun i => lattice1D.flatMap fun j => lattice1D.map fun k => (⟨i, j, k⟩ : V3 Int)).filter
     (fun e => e != ⟨0, 0, 0⟩)
 
-def stepGain (G : M3 Rat) (n e : V3 Int) : Rat :=
+/-- lower bound of `Q(d+n) − Q(d+n−e)` over the box `lo ≤ d ≤ hi` -/
+def stepGainBox (G : M3 Rat) (n e : V3 Int) (lo hi : V3 Rat) : Rat :=
   let ge := G.mulVec e.toRat
-  2 * V3.dot ge n.toRat - V3.dot e.toRat ge - (absR ge.x + absR ge.y + absR ge.z)
+  2 * V3.dot ge n.toRat - V3.dot e.toRat ge +
+    (minR (2 * ge.x * lo.x) (2 * ge.x * hi.x) + minR (2 * ge.y * lo.y) (2 * ge.y * hi.y) + minR (2 * ge.z * lo.z) (2 * ge.z * hi.z))
+
+def sgnI (k : Int) : Int := if k < 0 then -1 else if 0 < k then 1 else 0
+
+/-- steps tried for `n`: first the one towards the origin in every coordinate, then all 26 neighbours -/
+def stepCandidates (n : V3 Int) : List (V3 Int) := ⟨sgnI n.x, sgnI n.y, sgnI n.z⟩ :: neighbours26
+
+def halves (lo hi : Rat) : List (Rat × Rat) := [(lo, (lo + hi) / 2), ((lo + hi) / 2, hi)]
+
+/-- `n` is beaten by a neighbour everywhere on the box, established by bisection to at most `depth` levels -/
+def certPoint (G : M3 Rat) (n : V3 Int) : Nat → V3 Rat → V3 Rat → Bool
+  | depth, lo, hi =>
+    (stepCandidates n).any (fun e => decide (0 < stepGainBox G n e lo hi)) ||
+      match depth with
+      | 0 => false
+      | k + 1 =>
+        (halves lo.x hi.x).all fun bx => (halves lo.y hi.y).all fun by' => (halves lo.z hi.z).all fun bz =>
+          certPoint G n k ⟨bx.1, by'.1, bz.1⟩ ⟨bx.2, by'.2, bz.2⟩
+
+def certDepth : Nat := 7
 
 def windowCert (G : M3 Rat) (W : List (V3 Int)) : Bool :=
-  (cubeBox G).all fun n => W.contains n || neighbours26.any fun e => decide (0 < stepGain G n e)
+  (cubeBox G).all fun n => W.contains n || certPoint G n certDepth ⟨-1, -1, -1⟩ ⟨1, 1, 1⟩
 
 /-- the reduction conditions spglib's Niggli reduction aims at (main conditions): ordered diagonal,
 `|2 g_ij| ≤ min(g_ii, g_jj)`, off-diagonal entries all positive or all non-positive -/
